@@ -628,4 +628,20 @@ theorem sessionWork_refines (file : Bytes) (ops : List Op) (o : Outcome) (f : Wo
   | panic i => simp [hr] at h
   | badOp => simp [hr] at h
 
+/-- `WorkStartOK` as a Boolean test -/
+def workStartOKb (f : WorkFile) : Bool :=
+  f.godebug.all (fun g => !g.key.isEmpty) && f.use.all (fun u => !u.path.isEmpty) &&
+  f.replace.all (fun r => !r.old.path.isEmpty) && decide (f.replace.map (·.lineId)).Nodup &&
+  (f.replace.map (·.lineId)).all (fun i => f.syn.allLines.any (fun l => l.id == i))
+
+theorem workStartOKb_sound (f : WorkFile) (h : workStartOKb f = true) : WorkStartOK f := by
+  unfold workStartOKb at h
+  simp only [Bool.and_eq_true, List.all_eq_true, decide_eq_true_eq, List.any_eq_true] at h
+  rcases h with ⟨⟨⟨⟨h1, h2⟩, h3⟩, h4⟩, h5⟩
+  refine ⟨fun g hg => isEmpty_false_ne (h1 g hg), fun g hg => isEmpty_false_ne (h2 g hg),
+    fun g hg => isEmpty_false_ne (h3 g hg), h4, ?_⟩
+  intro i hi
+  rcases h5 i hi with ⟨l, hl, he⟩
+  exact ⟨l, hl, eq_of_beq he⟩
+
 end ModVerif.Modfile.Edit
